@@ -14,6 +14,7 @@ func init() {
 	vhRegister("VH_C03_Resume", func(p []int) { VH_C03_Resume(p[0]) })
 	vhRegister("VH_C17_Gate", func(p []int) { VH_C17_Gate(p[0]) })
 	vhRegister("VH_C17_Real", func(p []int) { VH_C17_Real(p[0], p[1]) })
+	vhRegister("VH_C03_RealOffsets", func(p []int) { VH_C03_RealOffsets() })
 	vhRegister("VH_C15_Cache", func(p []int) { VH_C15_Cache(p[0]) })
 }
 
@@ -28,6 +29,7 @@ const (
 	ftClosed                 // event channel closed early (connection lost / EOF)
 	ftCancel                 // context cancelled
 	ftCancelInHandler        // the handler accepts a transaction and cancels the context while doing so
+	ftRejectAndCancel        // the context is cancelled while the handler holds a transaction, and the handler rejects it
 	ftKinds
 )
 
@@ -80,7 +82,7 @@ func VH_C04_Exit(U, fault int) {
 	case ftCancelInHandler:
 		vhAssume(len(h.exp) > 0)
 		cancelAt = vhChoose(len(h.exp))
-	case ftHandler:
+	case ftHandler, ftRejectAndCancel:
 		vhAssume(len(h.exp) > 0)
 		rejectAt = vhChoose(len(h.exp))
 	case ftMapperErr:
@@ -136,6 +138,9 @@ func VH_C04_Exit(U, fault int) {
 		if calls == rejectAt {
 			calls++
 			failed = true
+			if fault == ftRejectAndCancel {
+				ctx.cancel()
+			}
 			return errHandler
 		}
 		if calls == cancelAt {
@@ -149,7 +154,7 @@ func VH_C04_Exit(U, fault int) {
 	consumed := total - len(ch)
 	_ = lastConsumed
 	switch fault {
-	case ftHandler:
+	case ftHandler, ftRejectAndCancel:
 		vhAssert(err != nil, "a handler failure is reported")
 	case ftClosed, ftCancel, ftCancelInHandler:
 		vhAssert(err == nil, "end of stream / cancellation is not an error of the parser")
@@ -165,7 +170,7 @@ func VH_C04_Exit(U, fault int) {
 	n2 := consumed
 	if err != nil {
 		n2 = consumed - 1 // the event at which the stream failed was not processed
-		if fault == ftHandler {
+		if fault == ftHandler || fault == ftRejectAndCancel {
 			n2 = consumed
 		}
 	}
@@ -177,6 +182,42 @@ func VH_C04_Exit(U, fault int) {
 
 // VH_C17_Gate: an invalid event injected at every index of a history.
 func VH_C17_Gate(U int) { VH_C04_Exit(U, ftInvalid) }
+
+// VH_C03_RealOffsets: labels computed from REAL event headers with arbitrary 32-bit end offsets
+// (files larger than 2 GiB included): rotate target, two autocommitted statements, an XID transaction.
+func VH_C03_RealOffsets() {
+	n1, n2, n3 := vhU32(), vhU32(), vhU32()
+	start := vhU32()
+	evs := []replication.BinlogEvent{
+		replication.NewMysql56BinlogEvent(vwRotate("bin.000009", uint64(start))),
+		replication.NewMysql56BinlogEvent(vwFDE()),
+		replication.NewMysql56BinlogEvent(vwQuery("create table a (x int)", n1)),
+		replication.NewMysql56BinlogEvent(vwQuery("BEGIN", 7)),
+		replication.NewMysql56BinlogEvent(vwQuery("insert into a values (1)", 8)),
+		replication.NewMysql56BinlogEvent(vwEv(16, n2, []byte{1, 0, 0, 0, 0, 0, 0, 0})),
+		replication.NewMysql56BinlogEvent(vwQuery("drop table a", n3)),
+	}
+	ch := make(chan replication.BinlogEvent, len(evs))
+	for _, e := range evs {
+		ch <- e
+	}
+	close(ch)
+	s := &Streamer{tableMapper: &vMapper{}}
+	s.SetBinlogPosition(Position{Filename: "bin.000009", Offset: int64(start)})
+	want := []int64{int64(start), int64(n1), int64(n2), int64(n3)}
+	k := 0
+	s.sendTransaction = func(t *Transaction) error {
+		vhAssert(k < 3, "three transactions")
+		vhAssert(t.NowPosition.Filename == "bin.000009" && t.NowPosition.Offset == want[k], "start label = previous end label (exact 32-bit offset)")
+		vhAssert(t.NextPosition.Filename == "bin.000009" && t.NextPosition.Offset == want[k+1], "end label = end offset of the commit event (exact 32-bit offset)")
+		k++
+		return nil
+	}
+	pos, err := s.parseEvents(context.Background(), ch)
+	vhAssert(err == nil && k == 3, "history parses")
+	vhAssert(pos.Offset == int64(n3), "kept position is the last end label")
+	vhCover("real-offsets")
+}
 
 // VH_C17_Real: the REAL event type on an arbitrary buffer of n bytes that fails the validity test
 // (shorter than a header, or length field != buffer length), fed to the real parseEvents as packet
